@@ -21,6 +21,8 @@ Definition V_MALFORMED : N := 9.
 Definition V_K128 : N := 191.
 (* K-MPOWS: optional white space around ';' in a multipart content type *)
 Definition V_KOWS : N := 192.
+(* K-JSONTRAIL: a JSON document followed by further non-blank bytes is accepted *)
+Definition V_KJSON : N := 193.
 
 Inductive rinfo := RI (method uri : str) (marker : option str) (port : N).
 
@@ -37,10 +39,13 @@ Inductive ccase :=
 | CQuery (sp : spec) (q : option str) (intended : option (list fval)) (rq : rinfo) (o : obs)
 | CForm (sp : spec) (ct : hdr) (cap : N) (frames : list str) (intended : option (list fval))
         (rq : rinfo) (o : obs)
-  (* [oracle]: what serde_json makes of the concatenated frames, obtained by
-     calling the library directly (the parser is a Section variable of the
-     theorems) *)
-| CJson (ct : hdr) (cap : N) (frames : list str) (oracle : option named)
+  (* [oracle]: what serde_json makes of the concatenated frames when called
+     the way dropshot calls it (one value deserialised off the front of the
+     buffer, no [Deserializer::end()]), obtained by calling the library
+     directly (the parser is a Section variable of the theorems);
+     [strict_ok]: whether the WHOLE buffer is one JSON text of the type
+     ([serde_json::from_slice]) - the specification's notion of well-formed *)
+| CJson (ct : hdr) (cap : N) (frames : list str) (oracle : option named) (strict_ok : bool)
         (intended : option named) (rq : rinfo) (o : obs)
 | CRaw (streaming : bool) (ct : hdr) (cap : N) (frames : list str) (rq : rinfo) (o : obs)
 | CMultipart (ct : hdr) (cap : N) (frames : list str)
@@ -253,13 +258,28 @@ Definition judge (c : ccase) : N :=
           end
       | None => verdict_malformed o m
       end
-  | CJson ct cap frames oracle intended rq o =>
+  | CJson ct cap frames oracle strict_ok intended rq o =>
       let m := extract_typed_body (oracle_fn oracle) CtJson [] ct cap frames in
       match intended with
       | Some v =>
           verdict_valid (spec_delivered o rq [v] None None)
             (match m with Ok (TJson v') => list_eqb named_eqb (echoed o) [v'] | _ => false end)
-      | None => verdict_malformed o m
+      | None =>
+          if strict_ok && is_ok m then V_MALFORMED     (* a well-formed document, accepted *)
+          else if spec_refused true o then
+            match m with
+            | Err e => if option_eqb N.eqb (obs_status o) (xerr_status e) then V_AGREE else V_DIVERGE
+            | Ok _ => V_DIVERGE
+            end
+          else
+            (* not refused.  Known class: the buffer is not a JSON text, but a
+               JSON text of the type followed by trailing bytes; the front
+               parser (hence the model) accepts, and so did the server *)
+            match m, o with
+            | Ok (TJson v'), OOk true ss _ _ _ _ =>
+                if negb strict_ok && list_eqb named_eqb ss [v'] then V_KJSON else V_VIOLATION
+            | _, _ => V_VIOLATION
+            end
       end
   | CRaw streaming ct cap frames rq o =>
       let spec := spec_delivered o rq [] (Some (concat frames)) None in
@@ -313,3 +333,15 @@ Definition judge (c : ccase) : N :=
   | CNoModel want_shape rq o =>
       if spec_refused want_shape o then V_AGREE else V_VIOLATION
   end.
+
+(* which stream a case belongs to *)
+Definition is_valid_stream (c : ccase) : bool :=
+  match c with
+  | CPath _ _ (Some _) _ _ | CQuery _ _ (Some _) _ _ | CForm _ _ _ _ (Some _) _ _
+  | CJson _ _ _ _ _ (Some _) _ _ | CRaw _ _ _ _ _ _ | CMultipart _ _ _ (Some _) _ _
+  | CAll _ _ _ _ _ _ _ _ (Some _) _ _ => true
+  | _ => false
+  end.
+
+(* C09 judges the valid streams only *)
+Definition judge09 (c : ccase) : N := if is_valid_stream c then judge c else V_MALFORMED.
